@@ -111,6 +111,9 @@ func (c *checker) hook(e *sim.Ev) {
 		c.ext.installApplied(c, s, key, old, nw, e)
 	case "h.install.done":
 		c.cov("install-done")
+		if e.A > s.installedMax {
+			s.installedMax = e.A
+		}
 	case "h.config.append":
 		commit, latest, committed, start := e.A, e.B, e.C, e.D
 		c.cov("config-append")
